@@ -385,7 +385,7 @@ package exif2
 //@ spec u32val(t) = ite(t.Type == tag.TypeLong, t.ValueOffset, ite(t.Type == tag.TypeShort, uint32(slotShort0(t.ValueOffset, t.ByteOrder)), 0))
 
 //@ func (*ifdReader).parseTag
-//@   props C01 C02 C03 C06
+//@   props C01 C02 C03 C06 C07
 //@   requires tagPre(ir, t)
 //@   modifies ir.po, stream(ir.reader), ir.buffer.buf, ir.Exif
 //@   ensures [C06] anchor(ir) == old(anchor(ir))
@@ -421,6 +421,8 @@ package exif2
 //@   ensures [C03 ONLY] ir.customTagParser == nil && !((t.Ifd == ifds.IFD0 && t.ID == ifds.Make)) ==> same(ir.Exif.CameraMake, old(ir.Exif.CameraMake))
 //@   ensures [C03 ONLY] ir.customTagParser == nil && !((t.Ifd == ifds.IFD0 && t.ID == ifds.Model)) ==> same(ir.Exif.CameraModel, old(ir.Exif.CameraModel))
 //@   ensures [C03 ONLY] ir.customTagParser == nil && !((t.Ifd == ifds.IFD0 && t.ID == ifds.DNGVersion)) ==> same(ir.Exif.ImageType, old(ir.Exif.ImageType))
+// the mere presence of DNGVersion (whatever its four version bytes, in either byte order) promotes a TIFF to DNG
+//@   ensures [C03 C07 ONLY] ir.customTagParser == nil && t.Ifd == ifds.IFD0 && t.ID == ifds.DNGVersion ==> ir.Exif.ImageType == ite(old(ir.Exif.ImageType) == imagetype.ImageTiff, imagetype.ImageDNG, old(ir.Exif.ImageType))
 //@   ensures [C03 ONLY] ir.customTagParser == nil && !((t.Ifd == ifds.GPSIFD && t.ID == gpsifd.GPSAltitudeRef)) ==> same(ir.Exif.GPS.altitudeRef, old(ir.Exif.GPS.altitudeRef))
 //@   ensures [C03 ONLY] ir.customTagParser == nil && !((t.Ifd == ifds.GPSIFD && t.ID == gpsifd.GPSLatitudeRef)) ==> same(ir.Exif.GPS.latitudeRef, old(ir.Exif.GPS.latitudeRef))
 //@   ensures [C03 ONLY] ir.customTagParser == nil && !((t.Ifd == ifds.GPSIFD && t.ID == gpsifd.GPSLongitudeRef)) ==> same(ir.Exif.GPS.longitudeRef, old(ir.Exif.GPS.longitudeRef))
